@@ -34,11 +34,13 @@ func (node *ChildNode) Individual() *IndividualNode {
 
 	n := node.family.document.NodeByPointer(valueToPointer(node.value))
 
-	if IsNil(n) {
-		return nil
+	// The pointer may lead nowhere, or to something that is not an individual
+	// (such as a family).
+	if individual, ok := n.(*IndividualNode); ok {
+		return individual
 	}
 
-	return n.(*IndividualNode)
+	return nil
 }
 
 func (node *ChildNode) Father() *HusbandNode {
